@@ -130,16 +130,31 @@ def analyse(facts, tier):
         obls.append(Obl('C10.R2', nu.name, 'tone depends on ' + need, call[2]['loc'], 'discharged' if ok else 'finding',
                         why='%s is in the backward slice of the tone handed to OPN2::noteOn' % what if ok else 'the programmed tone no longer depends on the %s' % what))
     # bend * bendsense is a product, added (not subtracted)
+    # the tone expression with the locals replaced by what defines them: the bend term is the product of the channel's bend and bend range
+    tone_full = subst(call[3]['a'][1], sd)
     mb = None
-    for b, j, st in nu.cfg.stmts():
-        if st['s'].get('k') == 'DeclStmt':
-            for v in st['s']['decls']:
-                if v['n'] == 'midibend' and 'init' in v:
-                    mb = strip(v['init'])
-    okm = mb is not None and mb.get('k') == 'BinaryOperator' and mb['op'] == '*' and {short(strip(mb['l']).get('n', '')), short(strip(mb['r']).get('n', ''))} == {'bend', 'bendsense'}
-    obls.append(Obl('C10.R2', nu.name, 'bend term = bend * bendsense', call[2]['loc'], 'discharged' if okm else 'finding', why=show(mb) if mb else 'midibend not found'))
-    a = strip(call[3]['a'][1])
-    okadd = a.get('k') == 'BinaryOperator' and a['op'] == '+' and 'currentTone' in show(a) and ' - ' not in show(a)
+    def bend_product(e):
+        for y in walk(e):
+            if isinstance(y, dict) and y.get('k') == 'BinaryOperator' and y.get('op') == '*' and {short(strip(y['l']).get('n', '')), short(strip(y['r']).get('n', ''))} == {'bend', 'bendsense'} \
+                    and strip(y['l']).get('k') == 'MemberExpr' and strip(y['r']).get('k') == 'MemberExpr':
+                return y
+        return None
+    mb = bend_product(tone_full)
+    if mb is None:
+        # in the definition of a local of the tone's backward slice
+        for b, j, st in nu.cfg.stmts():
+            if st['s'].get('k') == 'DeclStmt':
+                for v in st['s']['decls']:
+                    if v.get('init') is not None and short(v['n']) in names and bend_product(v['init']) is not None:
+                        mb = bend_product(v['init'])
+            for y in walk(st['s']):
+                ap = assign_parts_raw(y) if isinstance(y, dict) else None
+                if ap and strip(ap[0]).get('k') == 'DeclRefExpr' and short(strip(ap[0])['n']) in names and bend_product(ap[1]) is not None:
+                    mb = bend_product(ap[1])
+    okm = mb is not None
+    obls.append(Obl('C10.R2', nu.name, 'bend term = bend * bendsense', call[2]['loc'], 'discharged' if okm else 'finding', why=show(mb) if mb else 'no product of the channel\'s bend and bend range in the tone'))
+    a = strip(tone_full)
+    okadd = a.get('k') == 'BinaryOperator' and a['op'] == '+' and 'currentTone' in names and ' - ' not in show(a)
     obls.append(Obl('C10.R2', nu.name, 'tone = currentTone + bend + phase', call[2]['loc'], 'discharged' if okadd else 'finding', why=show(a)))
     ub = facts.fn('OPNMIDIplay::MIDIchannel::updateBendSensitivity')
     cent = None
